@@ -483,3 +483,15 @@ def classify(case, witness):
         if n == 2 or _tri(pts[-1], pts[0], pts[1]) <= tol * tol or _vw_eliminates_all_interior(pts, tol):
             return "C16:visvalingam-endpoints"
     return None
+
+
+# floors for the call-history workloads added in session 3 (a run in which they were silently skipped is inconclusive)
+_floors_base = floors
+_FLOORS_EXTRA = {'classes': {'history_portion': 5000, 'history_resimplified': 5000}}
+
+
+def floors(tier):
+    f = _floors_base(tier)
+    for kind, d in _FLOORS_EXTRA.items():
+        f.setdefault(kind, {}).update(d)
+    return f
